@@ -41,6 +41,8 @@ func main() {
 		cmdList(os.Args[2:])
 	case "anchors":
 		cmdAnchors(os.Args[2:])
+	case "ground":
+		cmdGround(os.Args[2:])
 	default:
 		fmt.Fprintln(os.Stderr, "unknown command", os.Args[1])
 		os.Exit(2)
@@ -494,4 +496,25 @@ func cmdAnchors(args []string) {
 			fmt.Printf("  loop#%d at block %d (%s) %s\n", n, h.Index, h.Comment, e.pos(h.Instrs[0].Pos()))
 		}
 	}
+}
+
+// cmdGround: debugging aid, rebuilds the ground query of a kept .smt2 file.
+func cmdGround(args []string) {
+	data, err := os.ReadFile(args[0])
+	if err != nil {
+		fmt.Println(err)
+		os.Exit(2)
+	}
+	var lines []string
+	for _, l := range strings.Split(string(data), "\n") {
+		if strings.HasPrefix(l, "(assert") || strings.HasPrefix(l, "(declare-fun") {
+			lines = append(lines, l)
+		}
+	}
+	n := len(lines)
+	pc := strings.TrimSuffix(strings.TrimPrefix(lines[n-2], "(assert "), ")")
+	goal := strings.TrimSuffix(strings.TrimPrefix(lines[n-1], "(assert (not "), "))")
+	debugGround = true
+	out, cnt := groundQuery(lines[:n-2], pc, goal, 5)
+	fmt.Println("instances:", cnt, "lines:", len(out))
 }
